@@ -42,7 +42,9 @@ type Src struct {
 	// the Read before it stops at that offset, the Reads after it carry on normally.
 	HiccupAt  int
 	HiccupErr error
-	hiccuped  bool
+	// HiccupWithData: the error comes in the same Read as the bytes that end at HiccupAt
+	HiccupWithData bool
+	hiccuped       bool
 	// OnRead, when set, sees the caller's slice before every non-empty Read (state keys).
 	OnRead func(p []byte, off int)
 
@@ -112,6 +114,10 @@ func (s *Src) Read(p []byte) (int, error) {
 	}
 	copy(p, s.Data[s.Off:s.Off+n])
 	s.Off += n
+	if s.HiccupErr != nil && !s.hiccuped && s.HiccupWithData && s.Off == s.HiccupAt {
+		s.hiccuped = true
+		return n, s.HiccupErr
+	}
 	if s.WithLast && s.Off == end {
 		if s.EndErr != nil {
 			return n, s.EndErr
